@@ -6,36 +6,54 @@
 
 package satellite
 
+// Field-major layout: n whole-millisecond values (8 bits each), n extended-info values
+// (4), n fractional values (10), n phase range rates (14, two's complement).
+//@ define F1(bs, S, a, m) = forall(k, 0, m, a[k] == bits(bs, S + 8*k, 8))
+//@ define F2(bs, S, n, a, m) = forall(k, 0, m, a[k] == bits(bs, S + 8*n + 4*k, 4))
+//@ define F3(bs, S, n, a, m) = forall(k, 0, m, a[k] == bits(bs, S + 12*n + 10*k, 10))
+//@ define F4(bs, S, n, a, m) = forall(k, 0, m, a[k] == sbits(bs, S + 22*n + 14*k, 14))
+
 //@ func GetSatelliteCells
 //@ requires startOfSatelliteData <= 1<<40
 //@ let n = len(Satellites)
 //@ ensures r1 == nil ==> len(r0) == n && fresh(r0) && startOfSatelliteData + 36*n <= 8*len(bitStream)
 //@ ensures r1 != nil ==> len(r0) == 0
 //@ ensures[C04] (r1 == nil) == (startOfSatelliteData + 36*n <= 8*len(bitStream))
+//@ ensures[C04] r1 == nil ==> forall(k, 0, n, r0[k].ID == Satellites[k] && r0[k].RangeWholeMillis == bits(bitStream, startOfSatelliteData + 8*k, 8) && r0[k].ExtendedInfo == bits(bitStream, startOfSatelliteData + 8*n + 4*k, 4) && r0[k].RangeFractionalMillis == bits(bitStream, startOfSatelliteData + 12*n + 10*k, 10) && r0[k].PhaseRangeRate == sbits(bitStream, startOfSatelliteData + 22*n + 14*k, 14) && r0[k].LogLevel == logLevel)
 //@ loop 1
 //@ invariant 0 - 1 <= rangeindex && rangeindex <= n - 1 && (n == 0 || rangeindex < n)
 //@ invariant len(wholeMillis) == rangeindex + 1 && fresh(wholeMillis) && pos == startOfSatelliteData + 8*(rangeindex + 1)
 //@ invariant startOfSatelliteData + 36*n <= 8*len(bitStream)
+//@ invariant[C04] F1(bitStream, startOfSatelliteData, wholeMillis, len(wholeMillis))
 //@ decreases n - rangeindex
 //@ loop 2
 //@ invariant 0 - 1 <= rangeindex && rangeindex <= n - 1 && (n == 0 || rangeindex < n)
 //@ invariant len(extendedInfo) == rangeindex + 1 && fresh(extendedInfo) && pos == startOfSatelliteData + 8*n + 4*(rangeindex + 1)
 //@ invariant startOfSatelliteData + 36*n <= 8*len(bitStream) && len(wholeMillis) == n
+//@ invariant[C04] F1(bitStream, startOfSatelliteData, wholeMillis, n) && allocated(wholeMillis) && arrof(wholeMillis) != arrof(extendedInfo)
+//@ invariant[C04] F2(bitStream, startOfSatelliteData, n, extendedInfo, len(extendedInfo))
 //@ decreases n - rangeindex
 //@ loop 3
 //@ invariant 0 - 1 <= rangeindex && rangeindex <= n - 1 && (n == 0 || rangeindex < n)
 //@ invariant len(fractionalMillis) == rangeindex + 1 && fresh(fractionalMillis) && pos == startOfSatelliteData + 12*n + 10*(rangeindex + 1)
 //@ invariant startOfSatelliteData + 36*n <= 8*len(bitStream) && len(wholeMillis) == n && len(extendedInfo) == n
+//@ invariant[C04] F1(bitStream, startOfSatelliteData, wholeMillis, n) && allocated(wholeMillis) && arrof(wholeMillis) != arrof(fractionalMillis)
+//@ invariant[C04] F2(bitStream, startOfSatelliteData, n, extendedInfo, n) && allocated(extendedInfo) && arrof(extendedInfo) != arrof(fractionalMillis)
+//@ invariant[C04] F3(bitStream, startOfSatelliteData, n, fractionalMillis, len(fractionalMillis))
 //@ decreases n - rangeindex
 //@ loop 4
 //@ invariant 0 - 1 <= rangeindex && rangeindex <= n - 1 && (n == 0 || rangeindex < n)
 //@ invariant len(phaseRangeRate) == rangeindex + 1 && fresh(phaseRangeRate) && pos == startOfSatelliteData + 22*n + 14*(rangeindex + 1)
 //@ invariant startOfSatelliteData + 36*n <= 8*len(bitStream) && len(wholeMillis) == n && len(extendedInfo) == n && len(fractionalMillis) == n
+//@ invariant[C04] F1(bitStream, startOfSatelliteData, wholeMillis, n) && F2(bitStream, startOfSatelliteData, n, extendedInfo, n) && F3(bitStream, startOfSatelliteData, n, fractionalMillis, n)
+//@ invariant[C04] F4(bitStream, startOfSatelliteData, n, phaseRangeRate, len(phaseRangeRate))
 //@ decreases n - rangeindex
 //@ loop 5
 //@ invariant 0 - 1 <= rangeindex && rangeindex <= n - 1 && (n == 0 || rangeindex < n)
 //@ invariant len(satData) == rangeindex + 1 && fresh(satData)
 //@ invariant len(wholeMillis) == n && len(extendedInfo) == n && len(fractionalMillis) == n && len(phaseRangeRate) == n
+//@ invariant[C04] F1(bitStream, startOfSatelliteData, wholeMillis, n) && F2(bitStream, startOfSatelliteData, n, extendedInfo, n) && F3(bitStream, startOfSatelliteData, n, fractionalMillis, n) && F4(bitStream, startOfSatelliteData, n, phaseRangeRate, n)
+//@ invariant[C04] forall(k, 0, len(satData), satData[k].ID == Satellites[k] && satData[k].RangeWholeMillis == bits(bitStream, startOfSatelliteData + 8*k, 8) && satData[k].ExtendedInfo == bits(bitStream, startOfSatelliteData + 8*n + 4*k, 4) && satData[k].RangeFractionalMillis == bits(bitStream, startOfSatelliteData + 12*n + 10*k, 10) && satData[k].PhaseRangeRate == sbits(bitStream, startOfSatelliteData + 22*n + 14*k, 14) && satData[k].LogLevel == logLevel)
 //@ decreases n - rangeindex
 
 //@ func (*Cell).String
